@@ -124,7 +124,11 @@ class graph():
 
         # otherwise we won't be able to scale this graph
         # (with the given code)
-        assert isinstance(coords, list)
+        if not isinstance(coords, list):
+            raise lena.core.LenaTypeError(
+                "coords must be a list of coordinate sequences, "
+                "{} provided".format(coords)
+            )
         self.coords = coords
         self._scale = scale
 
